@@ -29,7 +29,7 @@ var pyNew, pyOld *oracle.Server
 
 func TestMain(m *testing.M) {
 	kf, _ = known.Load(ev.KnownFile())
-	rec.Rule("generated PyPI universes (2-12 packages, 1-5 versions each incl. pre- and post-releases, specifiers of every operator, markers whose truth in the fixed environment is known by construction incl. extra-dependent ones, EnabledDependencies extras, cycles through the root, conflicts that force backtracking, missing packages; successive versions share requirement lists; a quarter extras-heavy, an eighth with a resolver stress shape overlaid (late extra, late extra with a conflict behind it, diamond conflict, root cycle with a prerelease-naming requirement); at most one requirement per (version, package)) and every root (a sample for large universes); oracle = validity predicates whenever Graph.Error is empty: one node per package, node 0 is the root and its package occurs once, every requirement with a true marker (given the extras requested on the incoming edges) has an edge to the selected version and that version is in SpecifierSet(spec).filter(all versions) as computed by packaging (26.x and 21.3, asserted where they agree), requirements with false markers have no edge, every node reachable. One evaluation = one (universe, root) with an error-free graph. Non-trivial: backtracking (some requirement's best candidate is not the selected version), a false marker, an extra, or a cycle through the root. Distinct = distinct (universe, root).")
+	rec.Rule("generated PyPI universes (2-12 packages, 1-5 versions each incl. pre- and post-releases, specifiers of every operator, markers whose truth in the fixed environment is known by construction incl. extra-dependent ones, EnabledDependencies extras, cycles through the root, conflicts that force backtracking, missing packages; successive versions share requirement lists; a quarter extras-heavy, an eighth with a resolver stress shape overlaid (late extra, late extra with a conflict behind it, diamond conflict, root cycle with a prerelease-naming requirement); at most one requirement per (version, package)) and every root (a sample for large universes); oracle = validity predicates whenever Graph.Error is empty: one node per package, node 0 is the root and its package occurs once, every requirement with a true marker (given the extras requested on the incoming edges) has an edge to the selected version and that version is in SpecifierSet(spec).filter(all versions) as computed by packaging (26.x and 21.3, asserted where they agree), requirements with false markers have no edge, every node reachable. One evaluation = one (universe, root) with an error-free graph. Non-trivial: backtracking (some requirement's best candidate is not the selected version), a false marker, an extra, or a cycle through the root. Distinct = distinct (universe, root). A quarter of the universes carry one of seven resolver stress shapes with randomly assigned roles; every edge must stem from a requirement of its source version (no tolerance for edges left by a replaced pin since the graph construction was repaired).")
 	var err error
 	if pyNew, err = oracle.Start("py"); err == nil {
 		rec.Extra("oracle_py", pyNew.Version)
